@@ -40,9 +40,11 @@ def scan_trace(path, ctx):
             m = re.match(r'\{"a":"([a-z_]+)"', line)
             k = m.group(1) if m else "?"
             kinds[k] = kinds.get(k, 0) + 1
-            if k in ("member", "incr", "add") and len(line) < 200000:
-                key = re.findall(r'"(?:actual|current|q|s|e|query)":(\d+)', line[:400] + line[-400:])
-                distinct.add((k,) + tuple(key))
+            if k not in ("universe",) and len(line) < 400000:
+                head = line[:500] + line[-300:]
+                key = re.findall(r'"(?:actual|current|q|s|e|query|idx|first|v|n|i|pref|code|index|min|max|rep|id|was|before|page)":(-?\d+)', head)
+                strs = re.findall(r'"(?:scenario|kind|shape|path|method|what|side|mode|host|t|resp)":"([^"]{0,60})"', head)
+                distinct.add((k,) + tuple(key[:8]) + tuple(strs[:4]))
             if len(ctx.samples) < 6 and k not in ("universe", "reset") and i % 97 == 5:
                 ctx.samples.append({"trace": os.path.basename(path), "line": i + 1, "event": line[:600]})
     return n, kinds, distinct
